@@ -6,7 +6,7 @@ CONFIGS = {
     'quick': [('subcircuits', ('H_M', 'M_S', 'T_S', 'O_S', 3, 3), 5000)],
     'thorough': [('subcircuits', ('H_M', 'M_S', 'T_S', 'O_S', 4, 4), 80000)],
 }
-OWNED = {'error_type', 'accepted', 'no_sub_left', 'brackets', 'header_carried', 'macros_kept', 'macro_brackets', 'imports_carried'}
+OWNED = {'accepted', 'no_sub_left', 'brackets', 'header_carried', 'macros_kept', 'macro_brackets', 'imports_carried'}
 
 
 def owned(site):
